@@ -109,6 +109,22 @@ def body(chk: Check, *, mc_nodes: int, n_random: int, n_hist: int, hist_len: int
     chk.add("traces_validated_against_impl", len(progs) - st["zone"])
     chk.sample({"random_program": djc.brief(progs[0]), "expected": exp[progs[0]["id"]]["out"],
                 "expected_err": exp[progs[0]["id"]]["err"]}, limit=3)
+    # re-rendering: the same compiled templates (the same {% provide %} / component nodes) and classes rendered A, B, A
+    # with two page contexts in one process - provided kwargs taken from variables change between the renders
+    from .c01 import RERENDER_CTX2
+    gr = P.Gen(random.Random(chk.seed * 1000003 + 55), depth=deep, width=3, collide=False, provide=True, required=0.0)
+    base = [gr.program(6 * 10 ** 6 + 3 * i, P.MODES[i % 2]) for i in range(max(60, n_random // 5))]
+    ctxs = [base[0]["ctx"], RERENDER_CTX2, base[0]["ctx"]]
+    tri = [[dict(p, id=p["id"] + k, ctx=ctxs[k]) for k in range(3)] for p in base]
+    flat = [q for t in tri for q in t]
+    expr = djc.oracle(flat)
+    states += djc.oracle.last_states
+    flat_o = []
+    for t, o in zip(tri, djc.real_rerender(base, ctxs)):
+        flat_o += (o if isinstance(o, list) else [o] * 3)
+    st = djc.compare_batch(chk, flat, expr, flat_o, "rerender-provide")
+    chk.add("rerender_programs", len(base))
+    chk.add("traces_validated_against_impl", len(flat) - st["zone"])
     # histories: consecutive renders in one process
     hp = [g.program(10 ** 5 + i, P.MODES[(i // hist_len) % 2]) for i in range(n_hist * hist_len)]
     exph = djc.oracle(hp)
